@@ -8,7 +8,7 @@
    invariant, is: whenever none of the six mechanisms fires, the answer is the plain parser's. *)
 From Coq Require Import List Bool ZArith NArith Arith.
 From PP Require Import Model.Str Model.Results Model.Prog Model.Core Model.Entry Model.LR Model.LRT.
-From PP Require Import Proofs.LRProofs Proofs.LRTie.
+From PP Require Import Proofs.LRProofs Proofs.LRTie Proofs.LRComplete.
 Import ListNotations.
 
 (* 1. erasure: the instrumented handler computes exactly the outcome and the memo of Model/LR.v's handler *)
@@ -202,6 +202,150 @@ Proof.
   intros. split; [vm_compute; reflexivity|].
   intros cap [<-|[<-|[]]]; vm_compute; do 4 eexists; (split; [reflexivity|]); (split; [reflexivity|]);
     (split; [discriminate|reflexivity]).
+Qed.
+
+(* 6. the CONVERSE direction (Proofs/LRComplete.v): whenever the PLAIN parser answers within fuel f -- which it can only
+      do when the grammar is not left-recursive on this input: a left-recursive descent exhausts every fuel -- the
+      left-recursion handler, run with the same fuel (or more) from any memo satisfying the invariant, answers too, with
+      the same outcome, UP TO THE FIRST FLAG.  `parse_lr_x` is `parse_lr_t` made to stop at the first sub-run that comes
+      back with a flag (it re-uses the memo operations, `super_impl_t`, and the exit code verbatim); the two agree exactly
+      on flag-free answers (`C03_stop_agrees`), the stopping handler is monotone in its fuel (`C03_stop_monotone`), and a
+      flag it reports is genuine: no fuel gives `parse_lr_t` a flag-free answer (`C03_flag_genuine`).
+      Hence the dichotomy `C03_transparent_complete_partial`: same answer / same fuel / no flag, OR a flag raised while
+      still on the plain parser's path; silent non-termination of the left-recursion run is excluded.
+      `_partial` because (a) flag-freeness cannot be concluded (F-03b..e raise flags on grammars the plain parser
+      handles), and (b) of the hypothesis `peek_total G s`: the left-recursion algorithm evaluates a Forward's body with
+      do_actions=False before evaluating it with do_actions=True, which the plain Forward.parseImpl never does, so the
+      plain parser's termination on the do_actions=True call says nothing about that extra pass; `peek_total` says the
+      do_actions=False pass of every Forward body answers (same fuel) wherever its do_actions=True pass does.  It is
+      proved here only for Forward bodies that are tokens (`C03_peek_total_tokens`); it holds for action-free bodies (both
+      passes make the same calls) but that is not proved.
+      Which flag can be the first one on a call the plain parser answers: never `key_error` (unconditionally, 7 below),
+      and never `seed_returned` provided the Forward bodies are location-monotone (`loc_mono G s`: a do_actions=False
+      match of a body never ends before its start; a hypothesis, the framework only has upper bounds on locations);
+      `seed_read`, `peek_tainted`, `peek_replaced`, `peek_error` can (F-03b..e). *)
+Theorem C03_complete_upto_flag_partial : forall (G : env) (tbl : nat -> option nat) (s : str) f fuel (m : memo) (a : args) o,
+  forallb (fw tbl) G = true -> fw tbl (a_e a) = true -> a_s a = s ->
+  memo_ok G tbl s m -> peek_total G s ->
+  parse (step G) f a = Some o -> f <= fuel ->
+  exists o' m' fl, parse_lr_x G fuel m a = Some (o', m', fl) /\
+    key_error fl = false /\ (loc_mono G s -> seed_returned fl = false) /\
+    (fl_clean fl = true ->
+       o' = o /\ memo_ok G tbl s m' /\ parse_lr_t G fuel m a = Some (o, m', fl0) /\ parse_lr G fuel m a = Some (o, m')).
+Proof. exact lr_complete_x. Qed.
+
+Theorem C03_transparent_complete_partial : forall (G : env) (tbl : nat -> option nat) (s : str) f fuel (m : memo) (a : args) o,
+  forallb (fw tbl) G = true -> fw tbl (a_e a) = true -> a_s a = s ->
+  memo_ok G tbl s m -> peek_total G s ->
+  parse (step G) f a = Some o -> f <= fuel ->
+  (exists m', parse_lr_t G fuel m a = Some (o, m', fl0) /\ parse_lr G fuel m a = Some (o, m') /\ memo_ok G tbl s m')
+  \/
+  (exists o' m' fl, parse_lr_x G fuel m a = Some (o', m', fl) /\ fl_clean fl = false /\
+     key_error fl = false /\ (loc_mono G s -> seed_returned fl = false) /\
+     forall fuel' o'' m'', parse_lr_t G fuel' m a <> Some (o'', m'', fl0)).
+Proof. exact lr_complete. Qed.
+
+(* if ANY fuel gives a flag-free left-recursion run, the plain parser's own fuel already does, with the plain answer *)
+Theorem C03_complete_clean_partial : forall (G : env) (tbl : nat -> option nat) (s : str) f fuel fuel0 (m : memo) (a : args) o o0 m0,
+  forallb (fw tbl) G = true -> fw tbl (a_e a) = true -> a_s a = s ->
+  memo_ok G tbl s m -> peek_total G s ->
+  parse (step G) f a = Some o -> f <= fuel ->
+  parse_lr_t G fuel0 m a = Some (o0, m0, fl0) ->
+  exists m', parse_lr_t G fuel m a = Some (o, m', fl0) /\ parse_lr G fuel m a = Some (o, m') /\ memo_ok G tbl s m'.
+Proof. exact lr_complete_clean. Qed.
+
+(* through parse_string, from the empty memo, every capacity *)
+Theorem C03_complete_entry_point_partial : forall (G : env) tl dw root (keeptabs : bool) input parse_all (cap : option nat) f fuel r,
+  ids_consistent tl G root = true ->
+  peek_total G (if keeptabs then input else expandtabs input) ->
+  drun (parse (step G) f) (parse_string dw root keeptabs input parse_all) = Some r -> f <= fuel ->
+  exists r' m' fl, drunm_x (parse_lr_x G fuel) (memo_empty cap) (parse_string dw root keeptabs input parse_all) = Some (r', m', fl) /\
+    (fl_clean fl = true ->
+       r' = Some r /\
+       drunm_t (parse_lr_t G fuel) (memo_empty cap) (parse_string dw root keeptabs input parse_all) = Some (r, m', fl0) /\
+       drunm (parse_lr G fuel) (memo_empty cap) (parse_string dw root keeptabs input parse_all) = Some (r, m')).
+Proof. exact lr_complete_parse_string. Qed.
+
+(* the stopping handler against Model/LRT.v's: same flag-free answers at every fuel; monotone; its flags are genuine *)
+Theorem C03_stop_agrees : forall (G : env) fuel (m : memo) (a : args) o m',
+  parse_lr_x G fuel m a = Some (o, m', fl0) <-> parse_lr_t G fuel m a = Some (o, m', fl0).
+Proof. exact (fun G fuel m a o m' => conj (x_clean_t G fuel m a o m') (t_clean_x G fuel m a o m')). Qed.
+
+Theorem C03_stop_monotone : forall (G : env) fuel fuel' (m : memo) (a : args) r,
+  parse_lr_x G fuel m a = Some r -> fuel <= fuel' -> parse_lr_x G fuel' m a = Some r.
+Proof. exact x_mono. Qed.
+
+Theorem C03_flag_genuine : forall (G : env) fuel (m : memo) (a : args) o m' fl,
+  parse_lr_x G fuel m a = Some (o, m', fl) -> fl_clean fl = false ->
+  forall fuel' o' m'', parse_lr_t G fuel' m a <> Some (o', m'', fl0).
+Proof. exact x_flag_genuine. Qed.
+
+Theorem C03_peek_total_tokens : forall (G : env) (s : str), forallb is_tok G = true -> peek_total G s.
+Proof. exact peek_total_tokens. Qed.
+
+(* 7. `key_error` is NEVER raised: for every grammar, memo (whatever its content and capacity), fuel and call, the
+      `memo[act_key]` lookup of the do_actions=True exit finds its key.  (A (location, Forward) pair whose two keys are in
+      the active table keeps them through any run: either key hits, and every other Forward only sets / deletes its own
+      keys; the loop sets both keys before each iteration.)  Unconditional: no hypothesis on the grammar or the memo. *)
+Theorem C03_key_error_never : forall (G : env) fuel (m : memo) (a : args) o m' fl,
+  parse_lr_t G fuel m a = Some (o, m', fl) -> key_error fl = false.
+Proof. exact lr_key_error_never. Qed.
+
+Theorem C03_key_error_never_entry : forall (G : env) (R : Type) (p : dprog R) fuel (m : memo) r m' fl,
+  drunm_t (parse_lr_t G fuel) m p = Some (r, m', fl) -> key_error fl = false.
+Proof. exact (fun G R p fuel => lr_key_error_never_entry G p fuel). Qed.
+
+(* non-vacuity of 6, first alternative: the grammar of C03_instance meets every hypothesis (its only Forward body is a
+   token, so peek_total holds for every string), the plain parser answers with fuel 20, and the left-recursion handler
+   answers the same with the same fuel and no flag, for UnboundedMemo, LRUMemo 1, LRUMemo 2, also through parse_string *)
+Example C03_complete_instance :
+  let at_ id cp sv mi := {| nid := id; rsname := None; modalr := true; aslist := sv; skipws := true; white := [32%N];
+               callpre := cp; mayidx := mi; custom := false; hasmsg := true; acts := []; calltry := false; slen := 3 |} in
+  let lit c id := Tok (at_ id true false false) [] (KLit [c]) in
+  let word id := Tok (at_ id true false false) [] (KWord [97;98]%N [97;98]%N 1 None false false false) in
+  let seq id es := Nary (at_ id true true true) [] NAnd es in
+  let alt id es := Nary (at_ id false false true) [] NMatchFirst es in
+  let F := Fwd (at_ 20 true false false) [] (Some 0) in
+  let G := [word 21] in
+  let root := alt 10 [seq 11 [F; lit 98%N 2; lit 99%N 3]; seq 12 [F; lit 98%N 2]] in
+  let s := [97; 32; 98]%N in
+  let ar := mkargs root s 0 true true in
+  let ps := parse_string [32%N] root false s false in
+  (forall s', peek_total G s') /\
+  ids_consistent [(20, 0)] G root = true /\
+  (exists l r, parse (step G) 20 ar = Some (Ok l r)) /\
+  (forall cap, In cap [None; Some 1; Some 2] ->
+     option_map (fun x => (fst (fst x), snd x)) (parse_lr_x G 20 (memo_empty cap) ar)
+       = option_map (fun o => (o, fl0)) (parse (step G) 20 ar) /\
+     option_map (fun x => (fst (fst x), snd x)) (drunm_x (parse_lr_x G 20) (memo_empty cap) ps)
+       = option_map (fun r => (Some r, fl0)) (drun (parse (step G) 20) ps)).
+Proof.
+  intros. split; [intros s'; apply peek_total_tokens; reflexivity|].
+  split; [vm_compute; reflexivity|]. split; [vm_compute; eexists; eexists; reflexivity|].
+  intros cap [<-|[<-|[<-|[]]]]; vm_compute; split; reflexivity.
+Qed.
+
+(* ... second alternative: Opt(F) + F on "zz" (F-03b): every hypothesis holds, the plain parser answers, the stopping
+   handler stops with exactly `seed_read` (the stale seed), so by C03_flag_genuine no fuel gives a flag-free run *)
+Example C03_complete_flagged_instance :
+  let at_ id cp sv mi := {| nid := id; rsname := None; modalr := true; aslist := sv; skipws := true; white := [32%N];
+               callpre := cp; mayidx := mi; custom := false; hasmsg := true; acts := []; calltry := false; slen := 3 |} in
+  let word id := Tok (at_ id true false false) [] (KWord [97;98]%N [97;98]%N 1 None false false false) in
+  let seq id es := Nary (at_ id true true true) [] NAnd es in
+  let opt id e := Enh (at_ id true false false) [] (EOpt None) e in
+  let F := Fwd (at_ 20 true false false) [] (Some 0) in
+  let G := [word 21] in
+  let root := seq 40 [opt 41 F; F] in
+  let ar := mkargs root [122;122]%N 0 true true in
+  (forall s', peek_total G s') /\
+  ids_consistent [(20, 0)] G root = true /\
+  (exists o, parse (step G) 20 ar = Some o) /\
+  forall cap, In cap [None; Some 1] ->
+    exists o' m', parse_lr_x G 20 (memo_empty cap) ar = Some (o', m', Build_flags true false false false false false).
+Proof.
+  intros. split; [intros s'; apply peek_total_tokens; reflexivity|].
+  split; [vm_compute; reflexivity|]. split; [vm_compute; eexists; reflexivity|].
+  intros cap [<-|[<-|[]]]; vm_compute; eexists; eexists; reflexivity.
 Qed.
 
 (* the tie to the source: Model/LR.v transcribes the text of pyparsing/util.py (LRUMemo, UnboundedMemo), of the bounded-recursion
